@@ -39,11 +39,13 @@ func (w *RecursiveWatcher) Loop() { w.loop() }
     'lsp': {
         'pkg': 'zzverif/worlds/lsp',
         'rewrite': [('lsp/jsonrpc2', 'sync'), ('cmd/templ/lspcmd/proxy', 'sync'), ('lsp/protocol', 'sync')],
+        'closeyield': ['lsp/jsonrpc2'],
         'extra_dirs': ['simnet'],
     },
     'rpc': {
         'pkg': 'zzverif/worlds/rpc',
         'rewrite': [('lsp/jsonrpc2', 'sync')],
+        'closeyield': ['lsp/jsonrpc2'],
         'export_files': {'lsp/jsonrpc2/zz_verif_export.go': '''package jsonrpc2
 
 // PendingLen reports how many calls are registered as in flight.
